@@ -285,7 +285,8 @@ CHECKS = {
                 "case, records each continuing case when collecting and "
                 "aggregates by mean / exp(mean(log(J+1)))-1; "
                 "get_differentials replaces each collection by exactly its "
-                "own concatenation.",
+                "own concatenation."
+                " SurrogateOptimizer.solve writes model equations only into a private copy of the system (D11.9).",
         "design_ref": "DESIGN.md section 4, C11",
         "note": "Decides D11.1-D11.8 (controller purity = C16 D16.6). Does not decide "
                 "history dependence that lives inside scipy/numba. "
